@@ -196,6 +196,66 @@ def _task(task):
     return t
 
 
+def twin_docs():
+    """Pairs of documents that differ in ONE thing that matters to decoding: the slope of a length adjustment, an AND group versus an OR group,
+    a polynomial coefficient 1 versus 1.5, one enumeration label.  -> [(label, docA, docB)]"""
+    import dataclasses
+    from mc import docs
+    from mc.spec import And, BinEnc, BoolExpr, Cmp, Cond, Dyn, IntEnc, Or, Param, Poly, PType
+    out = []
+
+    def one(pts, prs, ents):
+        return docs.selector_doc([(pts, prs, ents)])
+    for label, a, b in (("adjustment slope 8 / 16", BinEnc(Dyn("LEN", False, 8, 0)), BinEnc(Dyn("LEN", False, 16, 0))),
+                        ("adjustment intercept 0 / 8", BinEnc(Dyn("LEN", False, 8, 0)), BinEnc(Dyn("LEN", False, 8, 8)))):
+        mk = lambda e: one([PType("LEN_T", "Integer", IntEnc(8)), PType("B_T", "Binary", e)], [Param("LEN", "LEN_T"), Param("B", "B_T")], [("p", "LEN"), ("p", "B")])  # noqa: E731
+        out.append((label, mk(a), mk(b)))
+    conds = (Cond("PKT_APID", "==", right_value="1", right_cal=False), Cond("TYPE", "==", right_value="0", right_cal=False))
+    for label, ga, gb in (("AND group / OR group", And(conds, ()), Or(conds, ())),):
+        mk = lambda g: one([PType("U_T", "Integer", IntEnc(8, ctx_cals=()))], [Param("U", "U_T")], [("p", "U")])  # noqa: E731
+        da, db = mk(ga), mk(gb)
+        # the group is the restriction criterion of the one packet container
+        ca = [dataclasses.replace(c, criteria=(BoolExpr(ga),)) if c.base else c for c in da.containers]
+        cb = [dataclasses.replace(c, criteria=(BoolExpr(gb),)) if c.base else c for c in db.containers]
+        out.append((label, dataclasses.replace(da, containers=tuple(ca)), dataclasses.replace(db, containers=tuple(cb))))
+    mkp = lambda p: one([PType("U_T", "Integer", IntEnc(8, default_cal=p))], [Param("U", "U_T")], [("p", "U")])  # noqa: E731
+    out.append(("coefficient 1 / 1.5", mkp(Poly(((1.0, 1),))), mkp(Poly(((1.5, 1),)))))
+    mke = lambda lab: one([PType("E_T", "Enumerated", IntEnc(8), enum=((0, "OFF"), (1, lab)))], [Param("E", "E_T")], [("p", "E")])  # noqa: E731
+    out.append(("enumeration label", mke("ON"), mke("RUN")))
+    return out
+
+
+def check_twins(t: Tally):
+    """write_xml(path) puts THIS definition into the file, whatever the file held before - in particular a near twin of it."""
+    import pathlib
+    for label, da, db in twin_docs():
+        for via in ("xml", "objects"):
+            for order in ((da, db), (db, da)):
+                case = {"twins": label, "via": via, "order": "A then B" if order[0] is da else "B then A"}
+                pth = pathlib.Path(VERIF_ROOT) / ".work" / f"c15_twins_{os.getpid()}.xml"
+                fresh = pathlib.Path(VERIF_ROOT) / ".work" / f"c15_twins_{os.getpid()}_fresh.xml"
+                pth.parent.mkdir(exist_ok=True)
+                t.evals += 1
+                t.transitions += 3
+                try:
+                    first, second = [(load_doc(d) if via == "xml" else build_objects(d)) for d in order]
+                    first.write_xml(pth)
+                    second.write_xml(pth)
+                    second.write_xml(fresh)
+                    if pth.read_bytes() != fresh.read_bytes():
+                        t.violation({"kind": "write-depends-on-what-the-file-held"}, case,
+                                    note="writing a definition over a file that holds a near twin of it does not give the file a fresh path gets")
+                except Exception as e:  # noqa: BLE001
+                    t.violation({"kind": "write_xml-failed", "exc": type(e).__name__, "twins": True}, case, observed=str(e)[:300])
+                finally:
+                    for q in (pth, fresh):
+                        try:
+                            q.unlink()
+                        except OSError:
+                            pass
+                t.nontrivial += 1
+
+
 def emit_digests(tier):
     """Subprocess entry: print {index: sha of W(D)} for the cross-process determinism comparison."""
     import logging
@@ -244,6 +304,7 @@ def run(ctx):
         base += len(ch)
     tally = fan_out(_task, tasks, jobs=ctx.jobs, seed=ctx.seed)
     cross_process(tally, ctx.tier)
+    check_twins(tally)
     coverage = {
         "states": tally.states,
         "transitions": tally.transitions,
@@ -252,7 +313,7 @@ def run(ctx):
         "exhaustive": True,
         "bound": (f"{len(items)} documents of the C09 family (palette kinds alone / ordered pairs, container trees, the attribute-coverage families) x namespace configurations "
                   "{prefix xtce, upper-case prefix XTCE, default namespace, none} and the XTCE prefix among five unrelated namespace declarations (all five for every fourth document and all trees, one rotating otherwise) x "
-                  "{loaded from XML, built from objects}; space system names rotating through none / the usual one / five others; 3 write/load cycles each; the last definitions (one per namespace convention and origin, up to three) are written once more after every later document was loaded and cycled; a sample re-serialized in two subprocesses with different PYTHONHASHSEED"),
+                  "{loaded from XML, built from objects}; space system names rotating through none / the usual one / five others; 3 write/load cycles each; the last definitions (one per namespace convention and origin, up to three) are written once more after every later document was loaded and cycled; a sample re-serialized in two subprocesses with different PYTHONHASHSEED; 5 pairs of near-twin definitions written over each other's file with write_xml"),
         "rule": ("one evaluation = one document/config taken through G1..G4; states = distinct serializations reached; transitions = write and load "
                  "steps; traces = complete cycles compared"),
     }
@@ -281,6 +342,9 @@ def _rebuild(case):
 
 def replay(case):
     t = Tally()
+    if "twins" in case:
+        check_twins(t)
+        return next((v for v in t.violations if all(v["case"].get(k) == case.get(k) for k in ("twins", "via", "order"))), None)
     if "first" in case:
         # W(A), load and cycle B, W(A) again
         a = _rebuild(case["first"])
